@@ -267,3 +267,10 @@ Definition resources_eqb (r : resources) (hide proc exc scripts : list str) (gh 
   set_eqb hide (hide_selectors r) && set_eqb proc (procedural_actions r) &&
   set_eqb exc (exceptions r) && set_eqb scripts (map fst (script_injections r)) &&
   Bool.eqb gh (generichide r).
+(* scriptlets observable in injected_script: those whose resource requirement [req] is met by the
+   accumulated permission mask (PermissionMask::is_injectable_by) *)
+Definition resources_eqb_req (req : str -> N) (r : resources) (hide proc exc scripts : list str) (gh : bool) : bool :=
+  set_eqb hide (hide_selectors r) && set_eqb proc (procedural_actions r) &&
+  set_eqb exc (exceptions r) &&
+  set_eqb scripts (map fst (filter (fun e => N.eqb (N.land (req (fst e)) (snd e)) (req (fst e))) (script_injections r))) &&
+  Bool.eqb gh (generichide r).
